@@ -885,6 +885,9 @@ func (e *Engine) lookup(fr *frame, x *ssa.Lookup, reach string, heap Heap) Val {
 			i++
 			return e.sc.define("mv", c.leaf, sel(sel(e.heapGet(heap, c), m), k))
 		})
+		if len(e.sc.binders) == 0 {
+			e.assumeSliceInvariants(val, mt.Elem())
+		}
 		val = e.iteVal(present, val, e.zeroVal(mt.Elem()))
 		if x.CommaOk {
 			return TupleVal{val, Sc{present, SBool}}
@@ -960,4 +963,23 @@ func (e *Engine) divRemUF(quo, signed bool, n int, x, y string) string {
 		return q
 	}
 	return r
+}
+
+
+// assumeSliceInvariants: every slice value inside v (a value read from a map) satisfies the
+// invariants of Go slices (0 <= len, bounded by memory; nil has length 0).
+func (e *Engine) assumeSliceInvariants(v Val, t types.Type) {
+	switch x := v.(type) {
+	case SliceVal:
+		if !isBVLit(x.Len) {
+			e.sc.assume(and(app("bvsge", x.Len, bvLit(0, 64)), app("bvslt", x.Len, bvLit(1<<40, 64)), app("bvsge", x.Off, bvLit(0, 64)), app("bvslt", x.Off, bvLit(1<<40, 64)),
+				implies(eq(x.Arr, bvLit(0, 32)), eq(x.Len, bvLit(0, 64)))))
+		}
+	case StructVal:
+		if st, ok := under(t).(*types.Struct); ok {
+			for i, f := range x.F {
+				e.assumeSliceInvariants(f, st.Field(i).Type())
+			}
+		}
+	}
 }
